@@ -22,6 +22,29 @@ def run(payload):
     def close(a, b):
         return np.allclose(a, b, rtol=1e-9, atol=1e-11)
 
+    # ---- vector operators on anisotropic Cartesian grids, every stencil variant: the compound kernel vs the sum of
+    #      the single-axis derivative operators (another registered route to the same stencil)
+    for dim in (1, 2, 3):
+        shape = [int(rng.integers(3, 6)) for _ in range(dim)]
+        grid = CartesianGrid([(0.0, float(rng.uniform(0.5, 2.5))) for _ in range(dim)], shape, periodic=[bool(rng.integers(0, 2)) for _ in range(dim)])
+        v = VectorField(grid, rng.uniform(-1, 1, (dim,) + grid.shape))
+        sc = ScalarField(grid, rng.uniform(-1, 1, grid.shape))
+        bc = "auto_periodic_neumann"
+        for method in ("central", "forward", "backward"):
+            cases += 1
+            try:
+                div = v.divergence(bc, backend="numba", method=method).data
+                parts = sum(v[a].apply_operator(f"d_d{grid.axes[a]}", bc, backend="numba", method=method).data for a in range(dim))
+                if not close(div, parts):
+                    fail("route_disagrees.divergence_vs_axis_derivatives", grid=repr(grid), method=method, max_dev=float(np.max(np.abs(div - parts))))
+                grad = sc.gradient(bc, backend="numba", method=method).data
+                for a in range(dim):
+                    comp = sc.apply_operator(f"d_d{grid.axes[a]}", bc, backend="numba", method=method).data
+                    if not close(grad[a], comp):
+                        fail("route_disagrees.gradient_vs_axis_derivatives", grid=repr(grid), method=method, axis=a, max_dev=float(np.max(np.abs(grad[a] - comp))))
+            except Exception as e:
+                fail("route_error", grid=repr(grid), method=method, error=f"{type(e).__name__}: {str(e)[:300]}")
+
     for rep in range(payload.get("n", 2)):
         grids = [UnitGrid([int(rng.integers(3, 6))]), CartesianGrid([(0, 1.3), (-1, 1)], [int(rng.integers(3, 6)), int(rng.integers(3, 6))], periodic=[bool(rng.integers(0, 2)), False]),
                  PolarSymGrid((0.5, 2), 5), SphericalSymGrid(2, 5), CylindricalSymGrid(2, (0, 1), (4, 3)), CartesianGrid([(0, 1)] * 3, [3, 4, 3])]
